@@ -20,26 +20,44 @@ import BinlogVerif.Reader.EventStream
 namespace BinlogVerif.Sess
 open BinlogVerif
 
+/-- a structured entry; `payload` gives the bytes that are framed and written -/
+inductive Entry where
+  | clockSync (cs : ClockSync)
+  | source (src : EventSource)
+  | writerProp (wp : WriterProp)
+  | event (sourceId clock : Nat) (args : Bytes)
+deriving Repr, DecidableEq, Inhabited
+
+def Entry.payload : Entry → Bytes
+  | .clockSync cs => clockSyncPayload cs
+  | .source src => sourcePayload src
+  | .writerProp wp => writerPropPayload wp
+  | .event sid clock args => eventPayload sid clock args
+
+def Entry.isEvent : Entry → Bool
+  | .event .. => true
+  | _ => false
+
 structure Chan where
   cid : Nat                   -- ghost: unique id (creation index)
   owner : Nat                 -- ghost: the writer that created it
   wp : WriterProp
-  entries : List Bytes        -- payloads of committed and unconsumed event entries, oldest first
+  entries : List Entry        -- committed and unconsumed event entries, oldest first
   closed : Bool               -- the writer has dropped its reference
   sealed : Bool               -- closed by replaceChannel (ordered before every later consume by the mutex)
 deriving Repr, Inhabited
 
-/-- one `OutputStream::write` call: the payloads of the whole entries it carries;
-    the bytes written are `frames w` -/
-abbrev Write := List Bytes
+/-- one `OutputStream::write` call: the whole entries it carries;
+    the bytes written are the framed payloads -/
+abbrev Write := List Entry
 
-def writeBytes (w : Write) : Bytes := frames w
+def writeBytes (w : Write) : Bytes := frames (w.map Entry.payload)
 
 structure Session where
   channels : List Chan := []            -- `_channels`, in creation order
-  clockSyncs : List Bytes := []         -- `_clockSync` buffer: every clock sync ever set
+  clockSyncs : List Entry := []         -- `_clockSync` buffer: every clock sync ever set
   consumeClockSync : Bool := true
-  sources : List Bytes := []            -- `_sources` buffer: event-source entries
+  sources : List Entry := []            -- `_sources` buffer: event-source entries
   sourcesConsumed : Nat := 0            -- `_sourcesConsumePos`, as a number of entries
   nextSourceId : Nat := 1
   totalConsumed : Nat := 0
@@ -47,9 +65,9 @@ structure Session where
   writerChan : List (Nat × Nat) := []   -- writer ↦ cid of its current channel
   /- ghost -/
   outputs : List (List Write) := [[]]   -- all outputs so far (rotation starts a new one); newest LAST
-  accepted : List (Nat × Bytes) := []   -- (writer, event payload) in acceptance order
-  delivered : List (Nat × Bytes) := []  -- (writer, event payload) in delivery order
-  lost : List (Nat × Bytes) := []       -- entries dropped with their channel
+  accepted : List (Nat × Entry) := []   -- (writer, event) in acceptance order
+  delivered : List (Nat × Entry) := []  -- (writer, event) in delivery order
+  lost : List (Nat × Entry) := []       -- entries dropped with their channel
 deriving Repr, Inhabited
 
 structure Poll where
@@ -91,22 +109,29 @@ structure PollResult where
   bytes : Nat
   chan : Chan
   removed : Bool
-  batch : List Bytes
-  dropped : List Bytes
+  batch : List Entry
+  dropped : List Entry
+
+/-- how many entries a poll of channel `c` takes: everything if the channel was sealed under the
+    mutex, otherwise what the (possibly stale) acquire load of the write index shows -/
+def pollN (c : Chan) (p : Poll) : Nat := if c.sealed then c.entries.length else min p.seen c.entries.length
+
+/-- the two `write` calls for a batch: split at entry `k` if `0 < k < |batch|` -/
+def pieces (batch : List Entry) (split : Nat) : List Write :=
+  let k := min split batch.length
+  if k = 0 ∨ k = batch.length then [batch] else [batch.take k, batch.drop k]
 
 def pollChan (c : Chan) (p : Poll) : PollResult :=
-  let n := if c.sealed then c.entries.length else min p.seen c.entries.length
+  let n := pollN c p
   let batch := c.entries.take n
   let rest := c.entries.drop n
   let isClosed := p.sawClosed && c.closed
   if batch.isEmpty then ⟨[], 0, c, isClosed, [], if isClosed then rest else []⟩
   else
-    let size := (frames batch).length
+    let size := (writeBytes batch).length
     let wp := { c.wp with batchSize := size }
-    let k := min p.split batch.length
-    let pieces : List Write := if k = 0 ∨ k = batch.length then [batch] else [batch.take k, batch.drop k]
-    let wpw : Write := [writerPropPayload wp]
-    ⟨wpw :: pieces, (writeBytes wpw).length + size, { c with wp := wp, entries := rest }, isClosed, batch,
+    let wpw : Write := [.writerProp wp]
+    ⟨wpw :: pieces batch p.split, (writeBytes wpw).length + size, { c with wp := wp, entries := rest }, isClosed, batch,
       if isClosed then rest else []⟩
 
 structure PollAll where
@@ -114,8 +139,8 @@ structure PollAll where
   bytes : Nat := 0
   chans : List Chan := []
   removed : Nat := 0
-  delivered : List (Nat × Bytes) := []
-  lost : List (Nat × Bytes) := []
+  delivered : List (Nat × Entry) := []
+  lost : List (Nat × Entry) := []
 
 /-- the channel loop of `consume` (order-preserving erase of the removed channels) -/
 def pollAll : List Chan → List Poll → PollAll
@@ -178,12 +203,12 @@ def step (s : Session) : Op → Option Session
     (lookupWriter s w).map fun cid => updChan s cid (fun c => { c with wp := { c.wp with name := name } })
   | .addSource src =>
     let src := { src with id := s.nextSourceId }
-    some { s with sources := s.sources ++ [sourcePayload src], nextSourceId := s.nextSourceId + 1 }
+    some { s with sources := s.sources ++ [.source src], nextSourceId := s.nextSourceId + 1 }
   | .log w sid clock args fits =>
     match lookupWriter s w with
     | none => none
     | some cid =>
-      let e := eventPayload sid clock args
+      let e := Entry.event sid clock args
       let s := { s with accepted := s.accepted ++ [(w, e)] }
       if fits then some (updChan s cid (fun c => { c with entries := c.entries ++ [e] }))
       else
@@ -198,7 +223,7 @@ def step (s : Session) : Op → Option Session
   | .destroyWriter w =>
     (lookupWriter s w).map fun cid => setWriter (updChan s cid (fun c => { c with closed := true })) w none
   | .setClockSync cs =>
-    some { s with clockSyncs := s.clockSyncs ++ [clockSyncPayload cs], consumeClockSync := true }
+    some { s with clockSyncs := s.clockSyncs ++ [.clockSync cs], consumeClockSync := true }
   | .consume polls => some (consume s polls).1
   | .rotate =>
     let s := { s with outputs := s.outputs ++ [[]] }
@@ -211,6 +236,6 @@ def exec : Session → List Op → Option Session
     | none => none
 
 /-- the session right after construction: the constructor serialises the system clock sync -/
-def init (cs : ClockSync) : Session := { clockSyncs := [clockSyncPayload cs] }
+def init (cs : ClockSync) : Session := { clockSyncs := [.clockSync cs] }
 
 end BinlogVerif.Sess
